@@ -267,6 +267,58 @@ func c10BadFrame(kind string, dotu bool) []byte {
 	return nil
 }
 
+// c10UnmountFromConsumer: requests issued through the non-blocking interface share one
+// unbuffered completion channel; their replies arrive together; the goroutine that
+// takes the completions calls Unmount after the first one. Unmount returns, and the
+// other request completes too (with its reply or with an error).
+func c10UnmountFromConsumer(n int, dotu bool, P int) Scenario {
+	var unmounted bool
+	var got int
+	name := fmt.Sprintf("unmount called by the consumer of a shared completion channel, %d requests dotu=%v", n, dotu)
+	body := func() {
+		unmounted, got = false, 0
+		c, peer := newClientPair(8192, dotu)
+		peer.Batch = n
+		peer.BatchOnce = true
+		peer.OneWrite = true
+		done := make(chan *go9p.Req)
+		for i := 0; i < n; i++ {
+			r := c.ReqAlloc()
+			r.Tc = c.NewFcall()
+			if err := go9p.PackTstat(r.Tc, uint32(200+i)); err != nil {
+				vs.Fail("PackTstat: %v", err)
+			}
+			r.Done = done
+			if err := c.Rpcnb(r); err != nil {
+				vs.Fail("Rpcnb: %v", err)
+			}
+		}
+		vs.Window(true)
+		vs.Go("consumer", func() {
+			vs.Recv(done)
+			got++
+			c.Unmount()
+			unmounted = true
+			for got < n {
+				vs.Recv(done)
+				got++
+			}
+		})
+		vs.Idle()
+		vs.Window(false)
+	}
+	check := stdCheck("C10", func(x *vs.Exec) *Viol {
+		if !unmounted {
+			return &Viol{Sig: "C10/unmount-never-returns/consumer", Msg: fmt.Sprintf("Unmount, called by the goroutine that takes the completions of the outstanding requests, never returns (completions taken: %d of %d; parked: %v)", got, n, x.Parked)}
+		}
+		if got != n {
+			return &Viol{Sig: "C10/call-never-completed/after-unmount-by-consumer", Msg: fmt.Sprintf("after Unmount %d of %d outstanding requests completed (parked: %v)", got, n, x.Parked)}
+		}
+		return nil
+	}, nil)
+	return vsScenario(&VsSpec{Name: name, Body: body, Check: check, P: P, Delay: true})
+}
+
 func c10Scenarios(tier string) []Scenario {
 	var out []Scenario
 	two := []callSpec{{"read", 10}, {"stat", 20}}
@@ -330,6 +382,7 @@ func c10Scenarios(tier string) []Scenario {
 		out = append(out, c10Scenario(c10Params{Calls: nil, Fault: "cut", At: 0, Late: lateC, P: D + 2}))
 		out = append(out, c10Scenario(c10Params{Calls: three[:1], Fault: "cut", At: 0, Late: lateC, Dotu: true, P: D + 2}))
 	}
+	out = append(out, c10UnmountFromConsumer(2, false, D), c10UnmountFromConsumer(3, true, D))
 	// the transport reports its failure as a timeout (the application set a read deadline)
 	for _, off := range []int{0, 5, 27, 28, 60} {
 		out = append(out, c10Scenario(c10Params{Calls: two, Fault: "timeout", At: off, OneWrite: off%2 == 0, Dotu: off%3 == 0, Late: off%5 == 0, P: D}))
